@@ -20,30 +20,44 @@ func init() {
 
 func c02Case(g *Gen, c addchain.Chain, tgt *big.Int, tgts []*big.Int) {
 	before := cloneInts(c)
-	V := c.Validate() == nil
-	A := c.IsAscending()
-	P, E := "err", "err"
-	if p, err := c.Program(); err == nil {
-		P = encOps(p)
-		E = encInts(p.Evaluate())
+	// a panic of the code under test is an outcome of the case (reported as a violation with the
+	// sequence as replay), never a crash of the harness
+	panicked := ""
+	try := func(what string, f func()) {
+		if pn := safe(f); pn != "" && panicked == "" {
+			panicked = what + ": " + pn
+		}
 	}
+	V, A := false, false
+	try("Validate", func() { V = c.Validate() == nil })
+	try("IsAscending", func() { A = c.IsAscending() })
+	P, E := "err", "err"
+	try("Program/Evaluate", func() {
+		if p, err := c.Program(); err == nil {
+			P = encOps(p)
+			E = "panic"
+			E = encInts(p.Evaluate())
+		}
+	})
 	O := "_"
 	if len(c) > 0 {
 		parts := make([]string, len(c))
 		for k := range c {
-			parts[k] = encOps(c.Ops(k))
+			parts[k] = "panic"
+			try("Ops", func() { parts[k] = encOps(c.Ops(k)) })
 		}
 		O = strings.Join(parts, ";")
 	}
 	PR, SU := false, false
-	if len(c) > 0 || true {
-		// Produces calls End() only after Validate succeeded.
-		PR = c.Produces(tgt) == nil
-		SU = c.Superset(tgts) == nil
-	}
+	// Produces calls End() only after Validate succeeded.
+	try("Produces", func() { PR = c.Produces(tgt) == nil })
+	try("Superset", func() { SU = c.Superset(tgts) == nil })
 	if !equalInts(before, c) {
 		g.Notes = append(g.Notes, "MUTATED:"+encInts(before))
 		V = !V // force a visible disagreement
+	}
+	if panicked != "" && !g.notesViolation() {
+		g.Notes = append(g.Notes, "VIOLATION: chain "+encInts(before)+": "+panicked)
 	}
 	g.Line("c02", encInts(c), tgt.String(), encInts(tgts), b01(V), b01(A), P, O, E, b01(PR), b01(SU))
 }
